@@ -680,6 +680,47 @@ def vec_push(exe, path, callee, args, dst_ty):
     return [('ret', path, UNIT)]
 
 
+@contract(r'^core::slice::<impl \[.*\]>::(first|last)$')
+def slice_first_last(exe, path, callee, args, dst_ty):
+    src = args[0]
+    v = exe.deref_all(path, src)
+    if not (isinstance(v, Agg) and v.name in ('Vec', 'array')):
+        raise MirUnsupported('slice first/last on %r' % (v,))
+    n = len(v.fields)
+    if n == 0:
+        return [('ret', path, NONE)]
+    i = 0 if callee.endswith('first') else n - 1
+    elem = Ref(src.key, src.proj + (('index', i),)) if isinstance(src, Ref) else v.fields[i]
+    return [('ret', path, some(elem))]
+
+
+@contract(r'^std::mem::replace::<.*>$|^core::mem::replace::<.*>$')
+def mem_replace(exe, path, callee, args, dst_ty):
+    ref, new = args
+    old = exe.load(path, ref)
+    exe.store_at(path, ref.key, ref.proj, new)
+    return [('ret', path, old)]
+
+
+@contract(r'^core::str::<impl str>::strip_prefix::<char>$|^core::str::<impl str>::strip_prefix::<&str>$')
+def str_strip_prefix(exe, path, callee, args, dst_ty):
+    s = strval(exe, path, args[0])
+    pat = args[1]
+    pat = z3.simplify(pat) if isinstance(pat, z3.ExprRef) else strval(exe, path, pat)
+    if isinstance(s, z3.ExprRef) and z3.is_string(s):
+        p = z3.StringVal(chr(pat.as_long())) if z3.is_int_value(pat) else pat
+        outs = []
+        yes = path.clone()
+        if exe.feasible(yes, [z3.PrefixOf(p, s)]):
+            yes.pc.append(z3.PrefixOf(p, s))
+            outs.append(('ret', yes, some(z3.SubString(s, z3.Length(p), z3.Length(s) - z3.Length(p)))))
+        if exe.feasible(path, [z3.Not(z3.PrefixOf(p, s))]):
+            path.pc.append(z3.Not(z3.PrefixOf(p, s)))
+            outs.append(('ret', path, NONE))
+        return outs
+    raise MirUnsupported('strip_prefix on %r' % (s,))
+
+
 @contract(r'^Vec::<.*>::len$|^Vec::<.*>::is_empty$')
 def vec_len(exe, path, callee, args, dst_ty):
     v = exe.deref_all(path, args[0])
